@@ -412,7 +412,8 @@ def run(tier, rep):
         add('call:round', [i], 'round-int')
         for n in (None, 0, 1, -1, -2, -3, -18, -19, -20, -400, Big(-1)):
             add('call:round', [i, n], 'round-int')
-    for txt in ('inf', '-inf', 'nan', 'infinity', '-Infinity', 'NaN', '+nan', '1e400', '-1e400', '1e-400', '0x10', '', ' ', '1.5.2', '1e', '.5', '5.', '-.5e1', '1e+2', 'in', 'nanx', '--1', '+-1', '1 2'):
+    for txt in ('inf', '-inf', 'nan', 'infinity', '-Infinity', 'NaN', '+nan', '1e400', '-1e400', '1e-400', '0x10', '', ' ', '1.5.2', '1e', '.5', '5.', '-.5e1', '1e+2', 'in', 'nanx', '--1', '+-1', '1 2',
+                '0x1p3', '0X1P-2', '0x.8p1', '-0x1p0', '0x1.8p1', 'INF', '+Infinity', 'iNf', '1e5', '1E5', '1.e5', '1e05', '00.5', '0e0', '1e-0', 'e5', '1ee5', '1e5.0', 'infinit', 'nan0'):
         add('call:float', [txt], 'parse')
     # ---------------- folding builtins ----------------
     fl_small = [0.0, -0.0, 1.0, -1.0, 0.1, 0.2, 0.3, 2.5, 1e16, -1e16, 1e308, INF, -INF, NAN, 5e-324, float(2 ** 53)]
